@@ -180,47 +180,46 @@ def runScans (fv nv : Int) (w : WState) (ds : List Disk) : WState := ds.foldl (s
 
 /-! ## copy-on-write shard set -/
 
-abbrev Key := Nat
-abbrev Sid := Nat      -- identity of one loaded searcher (one version of one shard file)
+/- keys (`Nat`) stand for shard file names, searcher ids (`Nat`) for one loaded version of one shard file -/
 
 structure CState where
-  shards : List (Key × Sid)          -- `ss.shards` (protected by `mu`)
-  ranked : List (Key × Sid)          -- `ss.ranked` (atomic.Value): what `getLoaded` returns
-  pending : Option (List (Key × Option Sid))   -- `replace` in progress: rest of its batch (`mu` held)
-  finalizable : List Sid             -- shards on which `replace` set a finalizer
-  closed : List Sid                  -- shards whose `Close` ran
-  searches : List (List (Key × Sid)) -- running searches: the snapshot each works on (index = search id)
-  published : List (List (Key × Sid)) -- ghost: every list ever stored in `ranked`
-  next : Sid                         -- ghost: identity of the next searcher the loader creates
+  shards : List (Nat × Nat)          -- `ss.shards` (protected by `mu`)
+  ranked : List (Nat × Nat)          -- `ss.ranked` (atomic.Value): what `getLoaded` returns
+  pending : Option (List (Nat × Option Nat))   -- `replace` in progress: rest of its batch (`mu` held)
+  finalizable : List Nat             -- shards on which `replace` set a finalizer
+  closed : List Nat                  -- shards whose `Close` ran
+  searches : List (List (Nat × Nat)) -- running searches: the snapshot each works on (index = search id)
+  published : List (List (Nat × Nat)) -- ghost: every list ever stored in `ranked`
+  next : Nat                         -- ghost: identity of the next searcher the loader creates
   deriving Repr, DecidableEq
 
 def CState.init : CState := ⟨[], [], none, [], [], [], [[]], 0⟩
 
 /-- give the new searchers of a batch their identities, in batch order (`true` = a freshly loaded searcher,
     `false` = `nil`, i.e. drop the key) -/
-def assignIds : List (Key × Bool) → Sid → List (Key × Option Sid) × Sid
+def assignIds : List (Nat × Bool) → Nat → List (Nat × Option Nat) × Nat
   | [], n => ([], n)
-  | (k, true) :: t, n => let (r, n') := assignIds t (n + 1); ((k, some n) :: r, n')
-  | (k, false) :: t, n => let (r, n') := assignIds t n; ((k, none) :: r, n')
+  | (k, true) :: t, n => ((k, some n) :: (assignIds t (n + 1)).1, (assignIds t (n + 1)).2)
+  | (k, false) :: t, n => ((k, none) :: (assignIds t n).1, (assignIds t n).2)
 
-def nodupKeys : List Key → Bool
+def nodupKeys : List Nat → Bool
   | [] => true
   | k :: t => !t.contains k && nodupKeys t
 
-def mapGet (m : List (Key × Sid)) (k : Key) : Option Sid := (m.find? (·.1 == k)).map (·.2)
-def mapErase (m : List (Key × Sid)) (k : Key) : List (Key × Sid) := m.filter (·.1 != k)
-def mapPut (m : List (Key × Sid)) (k : Key) (v : Sid) : List (Key × Sid) := mapErase m k ++ [(k, v)]
+def mapGet (m : List (Nat × Nat)) (k : Nat) : Option Nat := (m.find? (·.1 == k)).map (·.2)
+def mapErase (m : List (Nat × Nat)) (k : Nat) : List (Nat × Nat) := m.filter (·.1 != k)
+def mapPut (m : List (Nat × Nat)) (k : Nat) (v : Nat) : List (Nat × Nat) := mapErase m k ++ [(k, v)]
 
 inductive CAct
-  | replaceBegin (batch : List (Key × Bool))         -- `s.mu.Lock()`; the argument is a Go map: distinct keys
+  | replaceBegin (batch : List (Nat × Bool))         -- `s.mu.Lock()`; the argument is a Go map: distinct keys
   | replaceKey                                       -- one iteration of `for key, shard := range shards`
   | replaceStore                                     -- `s.ranked.Store(ranked)`, `mu.Unlock()`
   | searchBegin                                      -- `getLoaded()`
   | searchEnd (i : Nat)                              -- `done()` = `runtime.KeepAlive(shards)` is passed
-  | finalize (sid : Sid)                             -- the runtime runs the finalizer: `r.Close()`
+  | finalize (sid : Nat)                             -- the runtime runs the finalizer: `r.Close()`
   deriving Repr, DecidableEq
 
-def reachable (s : CState) (sid : Sid) : Bool :=
+def reachable (s : CState) (sid : Nat) : Bool :=
   s.shards.any (·.2 == sid) || s.ranked.any (·.2 == sid) || s.searches.any (·.any (·.2 == sid))
 
 def cstep (s : CState) : CAct → Option CState
